@@ -339,6 +339,33 @@ PROPS["C07"] = dict(
     assumptions=["as C06"],
 )
 
+def classify_c19(op, impl, model_line):
+    k = op.split(" ", 1)[0]
+    dom = "in-domain" if "\tS\t-\tR\t" not in model_line else "outside"
+    return f"{k}:{dom}"
+
+
+_VERIF = __import__("os").path.dirname(__import__("os").path.dirname(__import__("os").path.abspath(__file__)))
+PROPS["C19"] = dict(
+    n_quick=16000, n_thorough=300000, classify=classify_c19, pre=["build_cpp"], timeout=1800,
+    impl_cmd=[__import__("os").path.join(_VERIF, "build", "cpp", "cppdriver")],
+    ref_cmd=[__import__("os").path.join(_VERIF, "build", "gfsharness"), "run"],
+    rule="three-way run of the x.* operations: the C++ port (driver built from /repo/cpp on every run), the Go library (harness "
+         "linked against /repo) and the Lean driver answer the same lines. Inputs: the generators of C01/C02 (x.fs: validity, "
+         "frames, length, index window [-2,len+2], membership window, start/end, normalised and inverted range and frames, padded "
+         "and padded-inverted range as numbers + width check), C08 texts, C09 (x.f2r), C11 (x.padrange), C10 (x.pad widths -1..4096, "
+         "x.padsize tokens), C03/C04 (x.seq: components, width, len, start/end, String, frame paths for 9 frame numbers, index "
+         "paths), and generated directories of 1-4 uniformly zero-padded multi-frame sequences + frame-less / hidden files + "
+         "sub-directories (x.scan over the 4 option subsets x 2 styles, x.find over 8 pattern forms), each materialised by each "
+         "implementation in its own temp directory. The property fails on an op when a field inside the domain (numbers within a "
+         "long, >= 1 frame, sequence has a basename / extension / range) differs between the two real implementations; "
+         "non-trivial = any distinct op, class = op x in/outside the domain",
+    assumptions=["std::regex (ECMAScript) vs RE2 and the port's directory scan are tied by correspondence only",
+                 "numbers outside a C long (std::stol throws) and ranges denoting no frame are outside the property's domain",
+                 "frame paths for string-typed frames (FileSequence::frame(std::string)) are not part of the compared observation"],
+    trusted=["g++ / libstdc++ (std::regex, streams, strtol) are trusted; the C++ driver (cppdriver/main.cpp) is part of the trusted harness"],
+)
+
 NOT_YET = {}
 
 MANIFEST_TEXT = {
@@ -450,6 +477,17 @@ MANIFEST_TEXT = {
              "passes non-range parts through, is idempotent, is the identity for w < 2, and the padded text parses to the same "
              "frame set (or both are rejected) for every text and width.",
         note="Trusted: Lean kernel; model of pad.go PadFrameRange / zfillString tied by correspondence."),
+    "C19": dict(
+        text="Theorems: wherever the port is not a transliteration (getline splitting, stol, isValid, zfill via setw/internal, "
+             "padFrameRange re-printing numbers, length >= 1) its own Lean definition agrees with the Go model on the property's "
+             "domain — same block list for every accepted text with >= 1 frame, same zero-filled numerals for every value and width, "
+             "padded ranges that are texts of the same component list; everywhere else one shared definition models both and the "
+             "three-way run (C++ driver built from /repo/cpp, Go harness, Lean driver) checks that both implementations follow it "
+             "and agree with each other field by field.",
+        note="Partial: std::regex vs RE2 and the port's directory scan are tied by the three-way correspondence only, not proved. "
+             "Trusted: Lean kernel, g++/libstdc++, the C++ protocol driver.",
+        technique="Lean 4 theorems about hand-written executable models of both implementations (shared definitions + GfsModel.Cpp); "
+                  "tied to /repo by a three-way differential run (C++ driver built from /repo/cpp, Go harness, compiled Lean driver) on every invocation"),
     "C02": dict(
         text="Theorems that len / frame-at-index / index-of-frame / membership / start / end of the model are views of one "
              "duplicate-free list, for all indices and integers; tie by differential run with full query windows.",
